@@ -52,7 +52,52 @@ def facts_before(path, idx):
         path._facts = cache
         path._facts_all = acc
     fs = path._facts_all[:cache[idx]] if idx < len(cache) else path._facts_all
-    return fs + strict_facts(fs) + list(getattr(path, "_arg_facts", []))
+    af = list(getattr(path, "_arg_facts", []))
+    return fs + strict_facts(fs) + cast_identities(fs, af) + af
+
+
+UMAX = {"unsigned char": 255, "unsigned short": 65535, "unsigned int": 4294967295, "unsigned long": 18446744073709551615}
+
+
+def lin_nonneg(l):
+    l = lin(l)
+    return l.k >= 0 and all(c > 0 and atom_nonneg(a) for a, c in l.terms)
+
+
+def range_extent(l):
+    """end(r) - begin(r) of one range object: not negative for a valid range"""
+    l = lin(l)
+    if l.k != 0 or len(l.terms) != 2:
+        return False
+    (a, ca), (b, cb) = l.terms
+    if ca + cb != 0 or abs(ca) != 1:
+        return False
+    pos, neg = (a, b) if ca == 1 else (b, a)
+    return (pos[0] == "call" and neg[0] == "call" and str(pos[1]).endswith("end") and str(neg[1]).endswith("begin")
+            and pos[2:] == neg[2:])
+
+
+def cast_identities(fs, extra=()):
+    """a conversion to an unsigned type keeps the value when an asserted fact bounds the operand by the type's
+    maximum and the operand cannot be negative: cast(T, x) == x  (x <= max(T) asserted, x >= 0)"""
+    casts = set()
+    for op, f in fs:
+        for a, _ in f.terms:
+            if a[0] == "cast" and a[1] in UMAX and isinstance(a[2], Lin):
+                casts.add(a)
+    out = []
+    for a in casts:
+        inner, mx = a[2], UMAX[a[1]]
+        if not (lin_nonneg(inner) or range_extent(inner) or nonpos(-inner, list(fs) + list(extra), depth=1)):
+            continue
+        for op, f in fs:
+            if op not in ("<=", "<"):
+                continue
+            d = f - inner                      # f = inner - K  =>  d = -K
+            if d.is_const() and (-d.k if op == "<=" else -d.k - 1) <= mx:
+                out.append(("==", Lin.atom(a) - inner))
+                break
+    return out
 
 
 def strict_facts(fs):
